@@ -844,7 +844,11 @@ class Node:
         """
         if with_clones:
             for c in self.get_clones():  # Excluding self
+                if c._tree is None:
+                    continue  # was already removed as descendant of another clone
                 c.remove(keep_children=keep_children, with_clones=False)
+            if self._tree is None:
+                return  # was already removed as descendant of another clone
             assert not self.is_clone()
 
         if keep_children:
